@@ -17,7 +17,8 @@ RULE = (
     "lines, lines in a generated permutation, any GTF dialect, all four disable_infer_* combinations, and (labelled share) "
     "custom transcript/gene keys and subfeature type with the matching dict id_spec; a labelled share of cases delivers the last "
     "gene, or one transcript's exons, later through update(), optionally preceded by an update with a constructor-built "
-    "(default-dialect) Feature and a reopen of the file. Non-trivial = a gene with >= 2 "
+    "(default-dialect) Feature and a reopen of the file; genes may have exons without a transcript key, and non-exon lines may be "
+    "unstranded. Non-trivial = a gene with >= 2 "
     "transcripts, or shuffled lines, or an explicit line, or an exon-less transcript. Distinct by hash."
 )
 ASSUMPTIONS = [
